@@ -363,6 +363,10 @@ func (w *twkbWriter) writeMultiPoint(mp MultiPoint) error {
 
 	for i := 0; i < numPoints; i++ {
 		pt := mp.PointN(i)
+		if pt.IsEmpty() {
+			// TWKB has no representation for an empty Point inside a MultiPoint.
+			return fmt.Errorf("cannot marshal MultiPoint to TWKB: Point at index %d is empty", i)
+		}
 		w.writePointCoords(pt)
 	}
 	return nil
